@@ -245,7 +245,7 @@ class SigmaFilter(SigmaRuleBase):
 
         # Rename every filter detection identifier with the shared prefix.
         for original_cond_name, condition in self.filter.detections.items():
-            rule.detection.detections[prefix + "_" + original_cond_name] = condition
+            rule.detection.detections[prefix + "_" + str(original_cond_name)] = condition
 
         # Rewrite the filter condition string so that every identifier/pattern token is
         # prefixed.  This handles:
